@@ -284,6 +284,15 @@ func vfIntrinsic(fn *ssa.Function, base string) extFn {
 			fr.in.schedBudget = int(fr.in.asInt64(a[0]))
 			return nil
 		}
+	case "vfCalib":
+		return func(fr *frame, a []value) value {
+			n := concStr(fr.in, a[0], "calibration fact")
+			v, ok := fr.in.w.cfg.Calib[n]
+			if !ok {
+				fr.in.unsupported("calibration fact %q was not measured", n)
+			}
+			return v
+		}
 	case "vfTrackHeap":
 		return func(fr *frame, a []value) value {
 			fr.in.trackHeap = true
